@@ -2,6 +2,8 @@ package interp
 
 import (
 	"encoding/json"
+
+	"symx/sym"
 	"fmt"
 	"go/token"
 	"go/types"
@@ -218,5 +220,112 @@ func init() {
 			fr.writeTo(cd.rw, strBytes(fmt.Sprintf("JS#%05d\n", fr.i.protoSeq)))
 			return iface{}
 		}
+	}
+}
+
+// reflect.DeepEqual without reflection: structural equality directed by the static type of the
+// operands (both must have the same dynamic type, as DeepEqual requires). Scalars and strings
+// compare through the engine's own == (so symbolic operands give a symbolic result); maps,
+// slices, arrays, structs and pointers recurse. Function values and unsupported shapes end the
+// path as UNSUPPORTED.
+func (fr *frame) deepEq(t types.Type, x, y value, depth int) *sym.Term {
+	c := fr.i.ctx
+	b := c.B
+	if depth > 16 {
+		c.end("UNSUPPORTED", "reflect.DeepEqual: structure too deep")
+	}
+	switch u := t.Underlying().(type) {
+	case *types.Basic:
+		return fr.eqnil(t, x, y)
+	case *types.Pointer:
+		px, _ := x.(*value)
+		py, _ := y.(*value)
+		if px == py {
+			return b.True
+		}
+		if px == nil || py == nil {
+			return b.False
+		}
+		return fr.deepEq(u.Elem(), *px, *py, depth+1)
+	case *types.Struct:
+		sx, sy := x.(structure), y.(structure)
+		acc := b.True
+		for k := 0; k < u.NumFields(); k++ {
+			acc = b.And(acc, fr.deepEq(u.Field(k).Type(), sx[k], sy[k], depth+1))
+		}
+		return acc
+	case *types.Array:
+		ax, ay := x.(array), y.(array)
+		acc := b.True
+		for k := range ax {
+			acc = b.And(acc, fr.deepEq(u.Elem(), ax[k], ay[k], depth+1))
+		}
+		return acc
+	case *types.Slice:
+		sx, _ := x.([]value)
+		sy, _ := y.([]value)
+		if (sx == nil) != (sy == nil) || len(sx) != len(sy) {
+			return b.False
+		}
+		acc := b.True
+		for k := range sx {
+			acc = b.And(acc, fr.deepEq(u.Elem(), sx[k], sy[k], depth+1))
+		}
+		return acc
+	case *types.Map:
+		mx, _ := x.(*smap)
+		my, _ := y.(*smap)
+		if (mx == nil) != (my == nil) {
+			return b.False
+		}
+		if mx == nil {
+			return b.True
+		}
+		if mx.nsym > 0 || my.nsym > 0 {
+			c.end("UNSUPPORTED", "reflect.DeepEqual on a map with symbolic keys")
+		}
+		if mx.len() != my.len() {
+			return b.False
+		}
+		acc := b.True
+		for _, e := range mx.entries {
+			if e.deleted {
+				continue
+			}
+			v2, ok := my.lookup(fr, e.k)
+			if !ok {
+				return b.False
+			}
+			acc = b.And(acc, fr.deepEq(u.Elem(), e.v, v2, depth+1))
+		}
+		return acc
+	case *types.Interface:
+		ix, iy := x.(iface), y.(iface)
+		if ix.t == nil || iy.t == nil {
+			if ix.t == nil && iy.t == nil {
+				return b.True
+			}
+			return b.False
+		}
+		if !types.Identical(ix.t, iy.t) {
+			return b.False
+		}
+		return fr.deepEq(ix.t, ix.v, iy.v, depth+1)
+	}
+	c.end("UNSUPPORTED", "reflect.DeepEqual on %v", t)
+	return nil
+}
+
+func init() {
+	externals["reflect.DeepEqual"] = func(fr *frame, a []value) value {
+		c := fr.i.ctx
+		ix, iy := a[0].(iface), a[1].(iface)
+		if ix.t == nil || iy.t == nil {
+			return ix.t == nil && iy.t == nil
+		}
+		if !types.Identical(ix.t, iy.t) {
+			return false
+		}
+		return c.mkval(fr.deepEq(ix.t, ix.v, iy.v, 0), types.Bool)
 	}
 }
